@@ -11,7 +11,7 @@ use std::{
     cell::RefCell,
     collections::BTreeSet,
     fs,
-    io::{self, BufWriter},
+    io::{self, BufWriter, Write},
     path::Path,
     sync::Arc,
     time,
@@ -514,6 +514,10 @@ impl Writer {
                 // switch to new merge data file if we exceed the max file size
                 merge_pos += nbytes;
                 if merge_pos > self.ctx.conf.max_file_size {
+                    // the finished merge files must be durable before their sources are removed
+                    merge_datafile_writer.flush()?;
+                    merge_datafile_writer.get_ref().sync_all()?;
+                    merge_hintfile_writer.sync()?;
                     merge_fileid += 1;
                     merge_pos = 0;
                     merge_datafile_writer =
@@ -523,6 +527,10 @@ impl Writer {
                     debug!(merge_fileid, "new merge file");
                 }
             }
+            // the merge files must be durable before their sources are removed
+            merge_datafile_writer.flush()?;
+            merge_datafile_writer.get_ref().sync_all()?;
+            merge_hintfile_writer.sync()?;
         }
 
         // Remove stale files from system and storage statistics
